@@ -4,6 +4,7 @@ import (
 	"fmt"
 	"os"
 	"path/filepath"
+	"strings"
 	"syscall"
 )
 
@@ -56,7 +57,7 @@ func ensureMountTargetExists(source, target string) error {
 	if isFile {
 		dir = filepath.Dir(target)
 	}
-	if err := os.MkdirAll(dir, 0755); err != nil {
+	if err := mkdirAllNoFollow(dir); err != nil {
 		return err
 	}
 	if !isFile {
@@ -72,6 +73,37 @@ func ensureMountTargetExists(source, target string) error {
 			if err1 == nil && f.Mode().IsRegular() {
 				return nil
 			}
+			return err
+		}
+	}
+	return nil
+}
+
+// mkdirAllNoFollow is os.MkdirAll for a target below the current directory (the future root) that refuses to walk
+// through a symbolic link: a link left inside a writable mount by an earlier program would take the walk, and
+// whatever is created, outside the root
+func mkdirAllNoFollow(dir string) error {
+	if filepath.IsAbs(dir) {
+		return os.MkdirAll(dir, 0755)
+	}
+	cur := ""
+	for _, part := range strings.Split(dir, "/") {
+		if part == "" || part == "." {
+			continue
+		}
+		cur = filepath.Join(cur, part)
+		fi, err := os.Lstat(cur)
+		switch {
+		case err == nil && fi.Mode()&os.ModeSymlink != 0:
+			return &os.PathError{Op: "mkdir", Path: cur, Err: syscall.ELOOP}
+		case err == nil && fi.IsDir():
+		case err == nil:
+			return &os.PathError{Op: "mkdir", Path: cur, Err: syscall.ENOTDIR}
+		case os.IsNotExist(err):
+			if err := os.Mkdir(cur, 0755); err != nil && !os.IsExist(err) {
+				return err
+			}
+		default:
 			return err
 		}
 	}
